@@ -816,8 +816,9 @@ impl<'a> Gen<'a> {
                 self.out.push_str(&format!("    def {m1}(self) =>\n        def {n} := self.{ft}.{fv}\n        print({n})\n\n"));
             }
         }
-        // and an ordinary instantiation
-        if self.rng.chance(1, 2) {
+        // and, rarely, an instantiation (the language cannot construct a generic class: this
+        // only keeps the rejecting path in the mix)
+        if self.rng.chance(1, 8) {
             let x = self.fresh("v");
             let (a, b) = (self.prim(), self.prim());
             let (la, lb) = (self.lit(&a), self.lit(&b));
